@@ -53,7 +53,7 @@ theorem kern_meanLinear (P : Nat) (N : Nat → Nat → K) : MeanLinear (kern P N
 
 theorem pkern_meanLinear (lg : K → K) (P : Nat) : MeanLinear (pkern lg P) := by
   intro us v
-  unfold pkern meanVec
+  unfold pkern meanVec Rsa.Gen.C02.poissonKernel
   exact sumR_mean_mul P us (fun u k => u k) _ (fun k => lg (v k))
 
 theorem id_meanCommute : MeanCommute (id : (Nat → K) → (Nat → K)) := by
@@ -63,7 +63,7 @@ theorem id_meanCommute : MeanCommute (id : (Nat → K) → (Nat → K)) := by
 theorem centre_meanCommute (P : Nat) : MeanCommute (centre (α := K) P) := by
   intro us _
   funext k
-  unfold centre meanVec
+  unfold centre meanVec Rsa.Gen.C02.centreTrain
   simp only [List.map_map, Function.comp_def, List.length_map, lsum_sub, lsum_div]
   have : sumR P (fun k => (us.map (fun v => v k)).sum / ((us.length : Nat) : K))
       = (us.map (fun x => sumR P x)).sum / ((us.length : Nat) : K) := by
@@ -117,7 +117,7 @@ theorem kdiff_kern (P : Nat) (N : Nat → Nat → K) (ua ub va vb : Nat → K) :
 theorem kdiff_pkern (lg : K → K) (P : Nat) (ua ub va vb : Nat → K) :
     kdiff (pkern lg P) ua ub va vb
       = sumR P (fun k => (ua k - ub k) * (lg (va k) - lg (vb k))) := by
-  simp only [kdiff, Rsa.Gen.C02.crossEntry, pkern, sub_mul, mul_sub, sumR_sub]
+  simp only [kdiff, Rsa.Gen.C02.crossEntry, pkern, Rsa.Gen.C02.poissonKernel, sub_mul, mul_sub, sumR_sub]
   ring
 
 /-- identity precision: `u · I · vᵀ = u · v` -/
@@ -165,13 +165,13 @@ theorem kern_perm (P : Nat) (σ : Nat → Nat) (hσ : ((List.range P).map σ).Pe
 theorem pkern_perm (lg : K → K) (P : Nat) (σ : Nat → Nat)
     (hσ : ((List.range P).map σ).Perm (List.range P)) (u v : Nat → K) :
     pkern lg P (fun k => u (σ k)) (fun k => v (σ k)) = pkern lg P u v := by
-  unfold pkern
+  unfold pkern Rsa.Gen.C02.poissonKernel
   exact sumR_perm P σ hσ (fun k => u k * lg (v k))
 
 theorem centre_perm (P : Nat) (σ : Nat → Nat) (hσ : ((List.range P).map σ).Perm (List.range P))
     (x : Nat → K) : centre P (fun k => x (σ k)) = fun k => centre P x (σ k) := by
   funext k
-  unfold centre
+  unfold centre Rsa.Gen.C02.centreTrain
   rw [sumR_perm P σ hσ x]
 
 theorem meanVec_comp (σ : Nat → Nat) (vs : List (Nat → K)) :
